@@ -95,9 +95,9 @@ func c15Still(c *Ctx, k stillKind, img *image.NRGBA, base *webp.EncoderOptions, 
 	}
 	impl := fmt.Sprintf("out=%s wf=1 %s parse=%s", fnvs(data), chunks, pl)
 	if k.Lossless {
-		c.Case(fmt.Sprintf("WL %d %d %s %s %s %s", w, h, hx(bs), hx(icc.Data), hx(exif.Data), hx(xmp.Data)), impl)
+		c.Case(fmt.Sprintf("WL %d %d %s %s %s %s %s", w, h, hx(bs), hx(icc.Data), hx(exif.Data), hx(xmp.Data), hx(data)), impl)
 	} else {
-		c.Case(fmt.Sprintf("W %d %d %d %s %s %s %s %s", fourcc, w, h, hx(bs), hx(alpha), hx(icc.Data), hx(exif.Data), hx(xmp.Data)), impl)
+		c.Case(fmt.Sprintf("W %d %d %d %s %s %s %s %s %s", fourcc, w, h, hx(bs), hx(alpha), hx(icc.Data), hx(exif.Data), hx(xmp.Data), hx(data)), impl)
 	}
 	c.Count("still:" + k.Name)
 	nmeta := 0
